@@ -88,7 +88,7 @@ func (w *c19Worker) actual() []string {
 
 func (w *c19Worker) quiesce(trace []string) bool {
 	want := strings.Join(w.members(), ",")
-	deadline := time.Now().Add(2 * time.Second)
+	deadline := time.Now().Add(30 * time.Second)
 	for {
 		got := strings.Join(w.actual(), ",")
 		if got == want {
@@ -123,7 +123,7 @@ func (w *c19Worker) dispatchProbe(trace []string) bool {
 	for i := 0; i < n; i++ {
 		w.fx.inject("127.1.0.1", 5060, w.request("OPTIONS", id, fmt.Sprintf("%s-%d", id, i), "a", ""))
 	}
-	bound := 2 * time.Second
+	bound := 10 * time.Second
 	if k == 0 {
 		bound = 3 * time.Millisecond
 	}
@@ -160,7 +160,7 @@ func (w *c19Worker) lateAnswerProbe(trace []string) bool {
 	id := fmt.Sprintf("w%dl%d", w.id, atomic.AddInt64(&w.probeNo, 1))
 	call := id + "-call"
 	w.fx.inject("127.1.0.1", 5060, w.request("INVITE", id, call, "ft", ""))
-	got := w.sinks.wait(id, 1, 2*time.Second)
+	got := w.sinks.wait(id, 1, 10*time.Second)
 	raw := w.sinks.last(id)
 	w.sinks.forget(id)
 	w.sinks.forgetRaw(id)
@@ -225,7 +225,7 @@ func (w *c19Worker) lateAnswerProbe(trace []string) bool {
 		w.fx.inject("127.1.0.1", 5060, w.request("INFO", id2, call, "ft", "tt"))
 	}
 	cur := w.members()
-	arr := w.sinks.wait(id2, 3, 2*time.Second)
+	arr := w.sinks.wait(id2, 3, 10*time.Second)
 	w.sinks.forget(id2)
 	atomic.AddInt64(&w.stats.lateAnswers, 1)
 	ok := len(arr) == 3 && !(arr[0] == arr[1] && arr[1] == arr[2])
